@@ -15,11 +15,11 @@ SPEC_FUNCS = {"relu": glob("spec.relu"), "np": glob("numpy"), "pd": glob("pandas
 
 
 def check(ctx):
-    r071(ctx)
-    r072(ctx)
-    r073_lagrangian(ctx)
-    r073_gridsearch(ctx)
-    r074(ctx)
+    ctx.guard(r071, ctx)
+    ctx.guard(r072, ctx)
+    ctx.guard(r073_lagrangian, ctx)
+    ctx.guard(r073_gridsearch, ctx)
+    ctx.guard(r074, ctx)
 
 
 def r071(ctx):
